@@ -242,12 +242,41 @@ def _(c):
     c.ensures("waiters-released", "self._drain_waiter.done()")
 
 
-@contract(MOD + ":MessageBatch.reset_drain", "C01")
+@contract(MOD + ":MessageBatch.reset_drain", ["C01", "C02", "C19"])
 def _(c):
     c.self_("MessageBatch")
     c.modifies("self._drain_waiter")
+    # C02 "resolved ... within bounded time", C19 "returns within a bound determined by the configured request ... timeouts":
+    # a batch that cannot be delivered expires request_timeout_ms after its *creation*, however often it was retried
+    c.ensures("a-retry-does-not-make-the-batch-younger", "self._ctime == old(self._ctime)")
+    c.call("time.monotonic", returns=REAL, note="clock (not read by the unchanged function)")
+    c.replay_fn = lambda model, ob=None: {"script": _RESET_DRAIN_SCRIPT}
     c.raises("not-drained", "AssertionError", when="not self._drain_waiter.done()", ensures=[("no-effect", "unchanged(self)")], exact=True)
     c.ensures("fresh-waiter", "fresh(self._drain_waiter) and not self._drain_waiter.done()")
+
+
+# replay: a real batch retried every 20 ms with a ttl of 50 ms: it has to be expired after 50 ms
+_RESET_DRAIN_SCRIPT = '''
+import asyncio, time
+from aiokafka.producer.message_accumulator import MessageBatch, BatchBuilder
+from aiokafka.structs import TopicPartition
+async def main():
+    b = BatchBuilder(1 << 16, 0, is_transactional=False)
+    b.append(timestamp=None, key=None, value=b"v")
+    batch = MessageBatch(TopicPartition("t", 0), b, 0.05, 0)
+    created = batch._ctime
+    for _ in range(5):
+        batch.drain_ready()
+        await asyncio.sleep(0.02)
+        batch.reset_drain()
+    if batch._ctime != created or not batch.expired():
+        return ["a batch with a ttl of 50 ms, retried every 20 ms for 100 ms: expired() is %s (age counted from %s)"
+                % (batch.expired(), "its creation" if batch._ctime == created else "its last retry")]
+    return []
+bad = asyncio.run(main())
+VIOLATED = bool(bad)
+DETAIL = "%r" % (bad,) if bad else "ok"
+'''
 
 
 @contract(MOD + ":MessageBatch.set_producer_state", "C01")
